@@ -156,4 +156,5 @@ func c15(r *core.Run) {
 				"the handler changes pin state only when the reference is in the opposite state (and the lookup succeeded)", "the handler calls "+row.call+" without the HasPin pre-check")
 		}
 	}
+	pinCounterRules(r, "C15")
 }
